@@ -602,7 +602,7 @@ theorem putRejects_congr : ∀ (rejs : List (Bytes × Bytes)), RejsOut rejs → 
       simp only
       rw [h.fileOnPath_eq hk', h.isDir_eq (not_isPcKey_dropLast hk')]
       split
-      · trivial
+      · exact ih hrest h
       · split
         · exact ih hrest h
         · have hp := putFile_congr h hk' content none
